@@ -1,6 +1,15 @@
-(* Extract/C01.v — run a history of Evaluate/SetValue/Build on a workbook given
-   on the wire; answer, per operation, the returned value and the snapshot of
-   the cache (built flag and value of every node).
+(* Extract/C12.v — validate_calcs (Model/Validate.v) on a workbook given on the
+   wire (same node format as Extract/C01.v, whose decoders are repeated here);
+   the history/spec entries of C01 are kept.
+
+   wire: validate (nodes texts tol outs)
+     texts = one (c1 c2 …) per node: str(cell.formula) of a formula cell
+     tol   = () for tolerance=None | (num den)
+     outs  = (n1 n2 …) the checked outputs, in the order given to validate_calcs
+         close_enough (tol self value)   ->  (1 b)   [_CellBase.close_enough]
+   answer: ((left…) (verified…) ((n original calced)…) snapshot)
+     left = what remains on the stack (non-empty = out of fuel), the report in
+     dictionary order, snapshot = (built? value) per node after the run.
 
    wire: history (nodes ops)      spec (nodes)
      node = (input? range? deps inp0 stored formula)
@@ -9,7 +18,8 @@
      operand = (0 i) | (1 z) | (2 c1 c2 …)
      op = (0 n) evaluate | (1 a value) set_value | (2 n) build            *)
 From Coq Require Import ZArith List String Extraction ExtrOcamlBasic.
-From PV Require Import Lib.Py Extract.Sx Model.Ops Model.Graph Model.GraphExpr.
+From Coq Require Import QArith.
+From PV Require Import Lib.Py Extract.Sx Model.Ops Model.Graph Model.GraphExpr Model.Validate.
 Import ListNotations.
 Open Scope string_scope.
 
@@ -125,8 +135,47 @@ Definition spec_entry (args : list sx) : sx :=
   | _ => bad_args
   end.
 
+(* ------------------------------------------------------------ validate_calcs *)
+Definition dec_tol (x : sx) : option (option Q) :=
+  match x with
+  | SL [] => Some None
+  | SL [SZ n; SZ (Zpos d)] => Some (Some (n # d))
+  | _ => None
+  end.
+
+Definition dec_text (x : sx) : option (list Z) :=
+  match x with SL l => sx_zs l | _ => None end.
+
+Definition validate_entry (args : list sx) : sx :=
+  match args with
+  | [SL nodes; SL texts; tol; SL outs] =>
+      match dec_list dec_node nodes, dec_list dec_text texts, dec_tol tol, sx_zs outs with
+      | Some ns, Some ts, Some t, Some os =>
+          let W := mk_wb ns in
+          let vs := validate W (mk_sem ns) (fun n => nth n ts []) t (map Z.to_nat os) in
+          SL [ SL (map (fun n => SZ (Z.of_nat n)) (vs_todo vs));
+               SL (map (fun n => SZ (Z.of_nat n)) (vs_verified vs));
+               SL (map (fun e => SL [SZ (Z.of_nat (fst e)); enc_val (fst (snd e));
+                                     enc_val (snd (snd e))]) (vs_report vs));
+               snapshot W (vs_st vs) ]
+      | _, _, _, _ => bad_args
+      end
+  | _ => bad_args
+  end.
+
+Definition close_entry (args : list sx) : sx :=
+  match args with
+  | [tol; a; b] =>
+      match dec_tol tol, dec_val a, dec_val b with
+      | Some t, Some a, Some b => enc_val (VBool (close_enough t a b))
+      | _, _, _ => bad_args
+      end
+  | _ => bad_args
+  end.
+
 Definition table : list entry :=
-  [ E "history" history_entry; E "spec" spec_entry ].
+  [ E "history" history_entry; E "spec" spec_entry; E "validate" validate_entry;
+    E "close_enough" close_entry ].
 
 Definition dispatch (name : list Z) (args : list sx) : sx :=
   match lookup table name with
